@@ -199,3 +199,31 @@ func retainCheck(s, what string) error {
 	retained.n++
 	return nil
 }
+
+// retainBytes is retainCheck for byte-slice results (helper outputs that must not alias reusable memory).
+var retainedB struct {
+	mu    sync.Mutex
+	got   [64][]byte
+	clone [64][]byte
+	what  [64]string
+	n     int
+}
+
+func retainBytes(b []byte, what string) error {
+	retainedB.mu.Lock()
+	defer retainedB.mu.Unlock()
+	for i := 0; i < len(retainedB.got) && i < retainedB.n; i++ {
+		if string(retainedB.got[i]) != string(retainedB.clone[i]) {
+			g, c, w := retainedB.got[i], retainedB.clone[i], retainedB.what[i]
+			retainedB.got[i], retainedB.clone[i] = nil, nil
+			return fmt.Errorf("a result returned earlier (%s) changed after it was returned: %x -> %x", w, c, g)
+		}
+	}
+	if b == nil {
+		return nil
+	}
+	k := retainedB.n % len(retainedB.got)
+	retainedB.got[k], retainedB.clone[k], retainedB.what[k] = b, append([]byte(nil), b...), what
+	retainedB.n++
+	return nil
+}
